@@ -45,7 +45,13 @@ theorem next_lenPrefix (f : Bytes → Option Nat) (o : Opts) {n : Nat} (h0 : 0 <
   have hn0 : ¬ n = 0 := by omega
   have hn1 : ¬ 2 ^ 31 ≤ n := by omega
   have e2 : readExact 4 (le32 n ++ T) = some (le32 n, T) := readExact_append (le32_length n) T
-  unfold next lenPrefix nextBody
+  have hne0 : ¬ (lenPrefix o n ++ T).length = 0 := by
+    have h1 : (lenPrefix o n).length = (if o.legacy then 0 else contMarker.length) + 4 := by
+      unfold lenPrefix; cases o.legacy <;> simp [le32_length]
+    simp only [List.length_append]; omega
+  unfold next
+  rw [if_neg hne0]
+  unfold lenPrefix nextBody
   rw [hm]
   cases o.legacy
   · have e1 : readExact 4 (contMarker ++ le32 n ++ T) = some (contMarker, le32 n ++ T) := by
@@ -56,10 +62,15 @@ theorem next_lenPrefix (f : Bytes → Option Nat) (o : Opts) {n : Nat} (h0 : 0 <
     simp only [if_true, List.nil_append, e2, hne, if_false, hv, hn0, hn1]
     rfl
 
-theorem next_short {f : Bytes → Option Nat} {bs : Bytes} (h : bs.length < 4) : next f bs = .eos := by
+theorem next_nil {f : Bytes → Option Nat} : next f [] = .eos := by
+  simp [next]
+
+/-- EOF inside the first length word is an error -/
+theorem next_short {f : Bytes → Option Nat} {bs : Bytes} (h0 : 0 < bs.length) (h : bs.length < 4) :
+    next f bs = .err := by
   have hm : META_LEN_BYTES = 4 := rfl
   unfold next
-  rw [hm]
+  rw [if_neg (by omega), hm]
   have : readExact 4 bs = none := by simp [readExact]; omega
   simp only [this]
 
@@ -126,7 +137,7 @@ theorem next_marker_short {f : Bytes → Option Nat} {T : Bytes} (h : T.length <
     next f (contMarker ++ T) = .err := by
   have hm : META_LEN_BYTES = 4 := rfl
   unfold next
-  rw [hm]
+  rw [if_neg (by rw [contMarker_eq]; simp), hm]
   have e1 : readExact 4 (contMarker ++ T) = some (contMarker, T) := readExact_append (by decide) _
   have e2 : readExact 4 T = none := by simp [readExact]; omega
   simp only [e1, if_true, e2]
@@ -136,38 +147,45 @@ theorem next_frame_take (f : Bytes → Option Nat) (o : Opts) (m : Msg) (hwf : W
     (S : Bytes) (k : Nat) :
     next f ((encodeMsg o m ++ S).take k) =
       if frameLen o m ≤ k then .msg (wireMeta o m) m.body (S.take (k - frameLen o m))
-      else if k < 4 then .eos else .err := by
+      else if k = 0 then .eos else .err := by
   obtain ⟨h0, h31, hb⟩ := hwf
   have hP := lenPrefix_length o (wireMeta o m).length
   have hP4 := prefixSize_ge o
-  by_cases hk4 : k < 4
-  · have hl : ((encodeMsg o m ++ S).take k).length < 4 := by simp; omega
-    rw [next_short hl]
-    have : ¬ frameLen o m ≤ k := by unfold frameLen; omega
-    simp only [this, if_false, hk4, if_true]
-  · by_cases hkP : k < prefixSize o
-    · -- only possible with a continuation marker: cut inside the second word
-      rcases prefixSize_cases o with ⟨hl, hp⟩ | ⟨hl, hp⟩
-      · omega
-      · have : ¬ frameLen o m ≤ k := by unfold frameLen; omega
-        simp only [this, if_false, hk4]
-        unfold encodeMsg lenPrefix
-        simp only [hl, Bool.false_eq_true, if_false]
-        rw [List.append_assoc, List.append_assoc]
-        rw [take_append_ge (by rw [contMarker_eq]; simp; omega)]
-        apply next_marker_short
-        simp [contMarker_eq]; omega
-    · have hk : prefixSize o ≤ k := by omega
-      unfold encodeMsg
-      rw [List.append_assoc, take_append_ge (by omega), hP, List.append_assoc]
-      rw [next_lenPrefix f o h0 h31, nextBody_take f _ _ _ hb]
-      unfold frameLen
-      by_cases hc : prefixSize o + (wireMeta o m).length + m.body.length ≤ k
-      · have : (wireMeta o m).length + m.body.length ≤ k - prefixSize o := by omega
-        simp only [this, hc, if_true]
-        congr 2; omega
-      · have : ¬ (wireMeta o m).length + m.body.length ≤ k - prefixSize o := by omega
-        simp only [this, hc, if_false, hk4]
+  have hFL : frameLen o m = prefixSize o + (wireMeta o m).length + m.body.length := rfl
+  have hlen : (encodeMsg o m ++ S).length = frameLen o m + S.length := by
+    unfold encodeMsg; simp [hP]; omega
+  by_cases hk0 : k = 0
+  · subst hk0
+    have : ¬ frameLen o m ≤ 0 := by omega
+    simp only [this, if_false, if_true, List.take_zero, next_nil]
+  · by_cases hk4 : k < 4
+    · have hl : ((encodeMsg o m ++ S).take k).length = k := by
+        rw [List.length_take]; exact Nat.min_eq_left (by omega)
+      rw [next_short (by omega) (by omega)]
+      have : ¬ frameLen o m ≤ k := by omega
+      simp only [this, if_false, hk0]
+    · by_cases hkP : k < prefixSize o
+      · -- only possible with a continuation marker: cut inside the second word
+        rcases prefixSize_cases o with ⟨hl, hp⟩ | ⟨hl, hp⟩
+        · omega
+        · have : ¬ frameLen o m ≤ k := by omega
+          simp only [this, if_false, hk0]
+          unfold encodeMsg lenPrefix
+          simp only [hl, Bool.false_eq_true, if_false]
+          rw [List.append_assoc, List.append_assoc]
+          rw [take_append_ge (by rw [contMarker_eq]; simp; omega)]
+          apply next_marker_short
+          simp [contMarker_eq]; omega
+      · have hk : prefixSize o ≤ k := by omega
+        unfold encodeMsg
+        rw [List.append_assoc, take_append_ge (by omega), hP, List.append_assoc]
+        rw [next_lenPrefix f o h0 h31, nextBody_take f _ _ _ hb]
+        by_cases hc : frameLen o m ≤ k
+        · have : (wireMeta o m).length + m.body.length ≤ k - prefixSize o := by omega
+          simp only [this, hc, if_true]
+          congr 2; omega
+        · have : ¬ (wireMeta o m).length + m.body.length ≤ k - prefixSize o := by omega
+          simp only [this, hc, if_false, hk0]
 
 
 theorem parseAll_of_eos {f : Bytes → Option Nat} {bs : Bytes} (h : next f bs = .eos) :
@@ -194,29 +212,32 @@ theorem eosBytes_length (o : Opts) : (eosBytes o).length = prefixSize o := lenPr
 
 theorem parseAll_tail (f : Bytes → Option Nat) (o : Opts) (eos : Bool) (k : Nat) :
     parseAll f ((if eos then eosBytes o else []).take k) =
-      ([], if k < 4 then .eos else if k < (if eos then prefixSize o else 0) then .err else .eos) := by
-  by_cases hk4 : k < 4
-  · simp only [hk4, if_true]
-    apply parseAll_of_eos
-    apply next_short
-    simp; omega
-  · simp only [hk4, if_false]
+      ([], if k = 0 then .eos else if k < (if eos then prefixSize o else 0) then .err else .eos) := by
+  by_cases hk0 : k = 0
+  · subst hk0
+    simp only [List.take_zero, if_true]
+    exact parseAll_of_eos next_nil
+  · simp only [hk0, if_false]
     cases eos
     · simp only [Bool.false_eq_true, if_false, List.take_nil]
       have : ¬ k < 0 := by omega
       simp only [this, if_false]
-      exact parseAll_of_eos (next_short (by simp))
+      exact parseAll_of_eos next_nil
     · simp only [if_true]
       by_cases hk : k < prefixSize o
       · simp only [hk, if_true]
         apply parseAll_of_err
-        rcases prefixSize_cases o with ⟨hl, hp⟩ | ⟨hl, hp⟩
-        · omega
-        · unfold eosBytes lenPrefix
-          simp only [hl, Bool.false_eq_true, if_false]
-          rw [take_append_ge (by rw [contMarker_eq]; simp; omega)]
-          apply next_marker_short
-          simp [contMarker_eq]; omega
+        by_cases hk4 : k < 4
+        · have hl : ((eosBytes o).take k).length = k := by
+            rw [List.length_take, eosBytes_length]; exact Nat.min_eq_left (by omega)
+          exact next_short (by omega) (by omega)
+        · rcases prefixSize_cases o with ⟨hl, hp⟩ | ⟨hl, hp⟩
+          · omega
+          · unfold eosBytes lenPrefix
+            simp only [hl, Bool.false_eq_true, if_false]
+            rw [take_append_ge (by rw [contMarker_eq]; simp; omega)]
+            apply next_marker_short
+            simp [contMarker_eq]; omega
       · simp only [hk, if_false]
         rw [List.take_of_length_le (by rw [eosBytes_length]; omega)]
         exact parseAll_of_eos (next_eosBytes f o)
@@ -231,8 +252,7 @@ def pushBody (f : Bytes → Option Nat) (n : Nat) (T : Bytes) : PNext :=
     match f (T.take n) with
     | none => .err
     | some bl =>
-      if (T.drop n).length = 0 then .short
-      else if (T.drop n).length < bl then .short
+      if (T.drop n).length < bl then .short
       else .msg (T.take n) ((T.drop n).take bl) ((T.drop n).drop bl)
 
 theorem pushNext_lenPrefix (f : Bytes → Option Nat) (o : Opts) {n : Nat} (h0 : 0 < n) (h : n < 2 ^ 31)
@@ -281,14 +301,14 @@ theorem pushNext_marker_short {f : Bytes → Option Nat} {T : Bytes} (h : T.leng
 theorem pushBody_take (f : Bytes → Option Nat) (W B S : Bytes) (hf : f W = some B.length) (j : Nat)
     (hj : j ≤ (W ++ (B ++ S)).length) :
     pushBody f W.length ((W ++ (B ++ S)).take j) =
-      if W.length + B.length < j ∨ (W.length + B.length = j ∧ B.length ≠ 0)
+      if W.length + B.length ≤ j
       then .msg W B (S.take (j - W.length - B.length)) else .short := by
   simp only [List.length_append] at hj
   unfold pushBody
   by_cases h1 : j < W.length
   · have : ((W ++ (B ++ S)).take j).length < W.length := by simp; omega
     simp only [this, if_true]
-    have : ¬ (W.length + B.length < j ∨ (W.length + B.length = j ∧ B.length ≠ 0)) := by omega
+    have : ¬ (W.length + B.length ≤ j) := by omega
     simp only [this, if_false]
   · have hj1 : W.length ≤ j := by omega
     rw [take_append_ge hj1]
@@ -296,25 +316,21 @@ theorem pushBody_take (f : Bytes → Option Nat) (W B S : Bytes) (hf : f W = som
     simp only [hl, if_false, take_left', drop_left', hf]
     have hlen : ((B ++ S).take (j - W.length)).length = j - W.length := by simp; omega
     rw [hlen]
-    by_cases hc : W.length + B.length < j ∨ (W.length + B.length = j ∧ B.length ≠ 0)
+    by_cases hc : W.length + B.length ≤ j
     · simp only [hc, if_true]
-      have a1 : ¬ j - W.length = 0 := by omega
       have a2 : ¬ j - W.length < B.length := by omega
-      simp only [a1, a2, if_false]
+      simp only [a2, if_false]
       rw [take_append_ge (by omega)]
       simp only [take_left', drop_left']
     · simp only [hc, if_false]
-      by_cases a1 : j - W.length = 0
-      · simp only [a1, if_true]
-      · simp only [a1, if_false]
-        have a2 : j - W.length < B.length := by omega
-        simp only [a2, if_true]
+      have a2 : j - W.length < B.length := by omega
+      simp only [a2, if_true]
 
 /-- one step of the push decoder on a truncated stream that starts with a well-formed frame -/
 theorem pushNext_frame_take (f : Bytes → Option Nat) (o : Opts) (m : Msg) (hwf : WFMsg o f m)
     (S : Bytes) (k : Nat) (hk : k ≤ (encodeMsg o m ++ S).length) :
     pushNext f ((encodeMsg o m ++ S).take k) =
-      if frameLen o m < k ∨ (frameLen o m = k ∧ m.body.length ≠ 0)
+      if frameLen o m ≤ k
       then .msg (wireMeta o m) m.body (S.take (k - frameLen o m))
       else if k = 0 then .clean else .short := by
   obtain ⟨h0, h31, hb⟩ := hwf
@@ -323,17 +339,17 @@ theorem pushNext_frame_take (f : Bytes → Option Nat) (o : Opts) (m : Msg) (hwf
   have hFL : frameLen o m = prefixSize o + (wireMeta o m).length + m.body.length := rfl
   by_cases hk0 : k = 0
   · subst hk0
-    have : ¬ (frameLen o m < 0 ∨ (frameLen o m = 0 ∧ m.body.length ≠ 0)) := by omega
+    have : ¬ (frameLen o m ≤ 0) := by omega
     simp only [this, if_false, if_true, List.take_zero, pushNext_nil]
   · by_cases hk4 : k < 4
     · have hl : ((encodeMsg o m ++ S).take k).length = k := by rw [List.length_take]; exact Nat.min_eq_left hk
       rw [pushNext_short (by omega) (by omega)]
-      have : ¬ (frameLen o m < k ∨ (frameLen o m = k ∧ m.body.length ≠ 0)) := by omega
+      have : ¬ (frameLen o m ≤ k) := by omega
       simp only [this, if_false, hk0]
     · by_cases hkP : k < prefixSize o
       · rcases prefixSize_cases o with ⟨hl, hp⟩ | ⟨hl, hp⟩
         · omega
-        · have : ¬ (frameLen o m < k ∨ (frameLen o m = k ∧ m.body.length ≠ 0)) := by omega
+        · have : ¬ (frameLen o m ≤ k) := by omega
           simp only [this, if_false, hk0]
           unfold encodeMsg lenPrefix
           simp only [hl, Bool.false_eq_true, if_false]
@@ -347,13 +363,11 @@ theorem pushNext_frame_take (f : Bytes → Option Nat) (o : Opts) (m : Msg) (hwf
         unfold encodeMsg
         rw [List.append_assoc, take_append_ge (by omega), hP, List.append_assoc]
         rw [pushNext_lenPrefix f o h0 h31, pushBody_take f _ _ _ hb _ (by omega)]
-        by_cases hc : frameLen o m < k ∨ (frameLen o m = k ∧ m.body.length ≠ 0)
-        · have : (wireMeta o m).length + m.body.length < k - prefixSize o ∨
-              ((wireMeta o m).length + m.body.length = k - prefixSize o ∧ m.body.length ≠ 0) := by omega
+        by_cases hc : frameLen o m ≤ k
+        · have : (wireMeta o m).length + m.body.length ≤ k - prefixSize o := by omega
           simp only [this, hc, if_true]
           congr 2; omega
-        · have : ¬ ((wireMeta o m).length + m.body.length < k - prefixSize o ∨
-              ((wireMeta o m).length + m.body.length = k - prefixSize o ∧ m.body.length ≠ 0)) := by omega
+        · have : ¬ ((wireMeta o m).length + m.body.length ≤ k - prefixSize o) := by omega
           simp only [this, hc, if_false, hk0]
 
 theorem pushAll_of_msg {f : Bytes → Option Nat} {bs a b r : Bytes} (h : pushNext f bs = .msg a b r) :
